@@ -291,6 +291,9 @@ class ClientCalls(Suite):
     name = "client-calls"
     parallel = True
     _dflt = None
+    RKINDS = ["ok", "ok", "ok", "ok-dup", "error", "silence"]
+    CODES = [-32603, -32601, -32000, 429, 0, -32602]
+    N = (1200, 40000)
 
     def dflt(self):
         if ClientCalls._dflt is None:
@@ -298,7 +301,7 @@ class ClientCalls(Suite):
         return ClientCalls._dflt
 
     def cases(self, ctx, budget):
-        rng = ctx.sub_rng("c01-client", budget)
+        rng = ctx.sub_rng(self.name, budget)
         sup = self.dflt()["supported"]
         out = []
         k = [0]
@@ -322,7 +325,7 @@ class ClientCalls(Suite):
         def others():
             return rng.choice([{"s": "zz"}, {"i": 0}, {"i": 1}, {"s": "1"}, "$INIT", "$LAST", "$INIT", "$LAST"])
 
-        for _ in range(1200 if budget == "quick" else 40000):
+        for _ in range(self.N[0] if budget == "quick" else self.N[1]):
             calls = []
             for _j in range(rng.choice([1, 2, 2, 3, 4])):
                 op = rng.choice(list(C.OPS))
@@ -347,7 +350,7 @@ class ClientCalls(Suite):
                 elif ikind == "bad-shape":
                     iscript.append([d0, {"k": "resp", "id": "$ID", "p": C.init_payload(fresh(), rng.choice(sup), "no-server-info")}])
                 iscript.sort(key=lambda x: x[0])
-                rkind = rng.choice(["ok", "ok", "ok", "ok-dup", "error", "silence"] if rng.random() < 0.9 else ["silence"])
+                rkind = rng.choice(self.RKINDS if rng.random() < 0.9 else ["silence"])
                 d1 = rng.choice([0, 1, 3, 511, 512, 513, 1500])
                 rscript = []
                 for _s in range(rng.choice([0, 1, 1, 2, 3])):
@@ -357,7 +360,7 @@ class ClientCalls(Suite):
                     if rkind == "ok-dup":
                         rscript.append([d1 + rng.choice([0, 1, 700]), {"k": "resp", "id": "$ID", "p": C.OPS[op]["payload"](fresh())}])
                 elif rkind == "error":
-                    rscript.append([d1, {"k": "err", "id": "$ID", "code": rng.choice([-32603, -32601, -32000, 429, 0, -32602]), "msg": "no"}])
+                    rscript.append([d1, {"k": "err", "id": "$ID", "code": rng.choice(self.CODES), "msg": rng.choice(["no", "", "Unsupported protocol version", "x" * 300])}])
                 rscript.sort(key=lambda x: x[0])
                 calls.append({"op": op, "gap": rng.choice([0, 0, 1, 700]), "initScript": iscript, "reqScript": rscript})
             out.append({"tie": rng.choice(["events", "timers", "io"]), "calls": calls, "debug": rng.random() < 0.25})
